@@ -307,4 +307,50 @@ theorem semN_resolves_missing (cfg : Cfg) (schemas : List Schema) (env : Env) (p
   | param x => simp [Shape.dclass] at hc
   | _ => simp [Shape.isContainer] at hnc
 
+/-! ## array elements and dictionary values -/
+
+theorem mapR_fails {α β : Type} (f : α → R β) (pre post : List α) (x : α) (e : Err)
+    (hpre : ∀ y ∈ pre, ∃ v, f y = .ok v) (hx : f x = .error e) : mapR f (pre ++ x :: post) = .error e := by
+  induction pre with
+  | nil => simp [mapR, hx]
+  | cons y ys ih =>
+    obtain ⟨v, hv⟩ := hpre y (by simp)
+    simp [mapR, hv, ih (fun z hz => hpre z (by simp [hz]))]
+
+/-- `Vec<T>`: an element that refers to a missing object (the elements before it being readable) makes the whole
+    array fail with that missing-object error -/
+theorem vec_element_reads_missing (cfg : Cfg) (sem : Sem) (env : Env) (a : Shape) (pre post : List Prim) (p : Prim)
+    (hpre : ∀ y ∈ pre, ∃ v, readShape cfg sem env a y = .ok v) (hm : ReadsMissing cfg sem env a p) :
+    ReadsMissing cfg sem env (.vec a) (.arr (pre ++ p :: post)) := by
+  obtain ⟨e, he, hmiss⟩ := hm
+  refine ⟨e, ?_, hmiss⟩
+  have := mapR_fails (fun x => readShape cfg sem env a x) pre post p e hpre he
+  simp [readShape, Prim.isRef, this]
+
+theorem mapKV_fails {α β : Type} (f : α → R β) (pre post : List (String × α)) (k : String) (x : α) (e : Err)
+    (hpre : ∀ y ∈ pre, ∃ v, f y.2 = .ok v) (hx : f x = .error e) : mapKV f (pre ++ (k, x) :: post) = .error e := by
+  induction pre with
+  | nil => simp [mapKV, hx]
+  | cons y ys ih =>
+    obtain ⟨k', y'⟩ := y
+    obtain ⟨v, hv⟩ := hpre (k', y') (by simp)
+    simp [mapKV, hv, ih (fun z hz => hpre z (by simp [hz]))]
+
+/-- `HashMap<Name, T>`: likewise for a dictionary value -/
+theorem map_value_reads_missing (cfg : Cfg) (sem : Sem) (env : Env) (a : Shape) (pre post : List (String × Prim))
+    (k : String) (p : Prim) (hpre : ∀ y ∈ pre, ∃ v, readShape cfg sem env a y.2 = .ok v)
+    (hm : ReadsMissing cfg sem env a p) :
+    ReadsMissing cfg sem env (.hashMap a) (.dict (pre ++ (k, p) :: post)) := by
+  obtain ⟨e, he, hmiss⟩ := hm
+  refine ⟨e, ?_, hmiss⟩
+  have := mapKV_fails (fun x => readShape cfg sem env a x) pre post k p e hpre he
+  simp [readShape, Prim.isRef, this]
+
+/-- an `Option` around a reader that fails with a missing-object error is `None`, in either mode (repaired reader) -/
+theorem option_of_reads_missing (cfg : Cfg) (hp : cfg.peel = true) (sem : Sem) (env : Env) (a : Shape) (p : Prim)
+    (hm : ReadsMissing cfg sem env a p) (hnn : p.isNull = false) :
+    readShape cfg sem env (.option a) p = .ok .none := by
+  obtain ⟨e, he, hmiss⟩ := hm
+  cases p <;> simp [Prim.isNull] at hnn <;> simp [readShape, he, hp, hmiss]
+
 end Derive
